@@ -54,9 +54,11 @@ const (
 var opNames = [...]string{"Marshal", "MarshalSize", "DestinationSSRC", "String", "Header", "Unmarshal", "Unmarshal(reused variable)"}
 
 type c18Obj struct {
-	kind   gen.Kind
-	p      rtcp.Packet
-	buf    []byte
+	kind    gen.Kind
+	flav    int
+	p       rtcp.Packet
+	backing []byte // the caller-owned array of which buf is a prefix
+	buf     []byte
 	target rtcp.Packet // reusable decode target (private objects)
 	base   [numOps]uint64
 	valid  [numOps]bool
@@ -115,22 +117,57 @@ func opApplies(op opKind, o *c18Obj) bool {
 	return true
 }
 
-// newObj builds an object: a packet, its input buffer, baselines computed on pristine clones.
+// object flavours: how the packet value was obtained
+const (
+	flavGenerated = iota // built in memory by the generator; every slice has cap == len
+	flavDecoded          // obtained from the type's own decoder: its slices alias the input buffer, which has spare capacity
+	flavSlack            // built in memory, every slice with spare capacity (sentinels beyond len)
+)
+
+var flavNames = [...]string{"generated", "decoded", "with-slack"}
+
+// newObj builds an object: a packet, its input buffer (a prefix of a larger backing array),
+// baselines computed on pristine clones.
 func newObj(r *core.Rand, k gen.Kind, mutateBuf bool) *c18Obj {
+	return newObjFlav(r, k, mutateBuf, r.Pick(flavGenerated, flavGenerated, flavDecoded, flavSlack))
+}
+
+func newObjFlav(r *core.Rand, k gen.Kind, mutateBuf bool, flav int) *c18Obj {
 	p := gen.Packet(r, k, gen.Opts{Small: r.Chance(3, 4), NoBig: true, AllowKF: r.Chance(1, 6)})
-	o := &c18Obj{kind: k, p: p}
+	o := &c18Obj{kind: k, p: p, flav: flav}
+	var enc []byte
 	if b, err, pan := gMarshal(clonePacket(p)); err == nil && pan == "" {
-		o.buf = b
+		enc = b
 	} else if e, rerr := ref.Encode(p, ref.Lib); rerr == nil {
-		o.buf = e.B
+		enc = e.B
 	} else {
-		o.buf = []byte{0x80, 200, 0, 0}
+		enc = []byte{0x80, 200, 0, 0}
+	}
+	if r.Chance(1, 3) {
+		if e, rerr := ref.Encode(p, ref.Lib); rerr == nil {
+			enc = e.B // reference encoding: unspecified padding octets are zero, not the count
+		}
+	}
+	if mutateBuf {
+		enc = gen.Mutate(r, enc)
+	}
+	// the input buffer is a prefix of a larger array owned by the caller
+	o.backing = append(append(make([]byte, 0, len(enc)+24), enc...), r.Bytes(24)...)
+	o.buf = o.backing[:len(enc):len(o.backing)]
+	switch flav {
+	case flavDecoded:
+		d := gen.New(k)
+		var derr error
+		if pan, _, _ := core.Guard(func() { derr = d.Unmarshal(o.buf) }); !pan && derr == nil {
+			o.p = d
+		} else {
+			o.flav = flavGenerated
+		}
+	case flavSlack:
+		o.p = mon.AddSlack(p, 1+r.Intn(8), r.U64).(rtcp.Packet)
 	}
 	if containsXR(o.p) {
 		core.Guard(func() { _, _ = o.p.Marshal() }) // fill the XR block headers once, before baselines are taken and the object is shared
-	}
-	if mutateBuf {
-		o.buf = gen.Mutate(r, o.buf)
 	}
 	o.target = gen.New(k)
 	for op := opKind(0); op < numOps; op++ {
@@ -186,6 +223,8 @@ func c18Purity(cs *core.Case, o *c18Obj, op opKind, where string) {
 	}
 	snapP := clonePacket(o.p)
 	snapB := cloneBytes(o.buf)
+	snapBacking := cloneBytes(o.backing)
+	capBefore := mon.DigestCap(o.p)
 	d, pan := doOp(op, o)
 	cs.Eval(1)
 	det := func(extra core.W) core.W {
@@ -211,8 +250,18 @@ func c18Purity(cs *core.Case, o *c18Obj, op opKind, where string) {
 	}
 	if !bytes.Equal(o.buf, snapB) {
 		cs.Fail("input-modified/"+opNames[op], det(core.W{"input_after_hex": mon.Hex(o.buf, 200)}))
-		o.buf = snapB
+		copy(o.buf, snapB)
 	}
+	if !bytes.Equal(o.backing, snapBacking) {
+		cs.Fail("caller-memory-modified/"+opNames[op], det(core.W{"flavour": flavNames[o.flav], "note": "octets of the caller's array outside the input slice (or aliased by the decoded packet) changed",
+			"backing_before_hex": mon.Hex(snapBacking, 300), "backing_after_hex": mon.Hex(o.backing, 300)}))
+		copy(o.backing, snapBacking)
+	}
+	if op != opUnmarshalReuse && mon.DigestCap(o.p) != capBefore {
+		cs.Fail("spare-capacity-written/"+opNames[op], det(core.W{"flavour": flavNames[o.flav], "note": "elements between len and cap of a slice reachable from the packet changed (append into an aliased slice)"}))
+		o.p = snapP
+	}
+	cs.Count("flavour/" + flavNames[o.flav])
 	if d != o.base[op] {
 		cs.Fail("result-differs/"+opNames[op], det(core.W{"note": "result differs from the baseline obtained on a pristine clone"}))
 	}
@@ -314,8 +363,10 @@ func c18Concurrent(cs *core.Case, cfg c18Config, opsPerG int) {
 	}
 	pristineP := make([]rtcp.Packet, len(shared))
 	pristineB := make([][]byte, len(shared))
+	pristineBacking := make([][]byte, len(shared))
+	pristineCap := make([]uint64, len(shared))
 	for i, o := range shared {
-		pristineP[i], pristineB[i] = clonePacket(o.p), cloneBytes(o.buf)
+		pristineP[i], pristineB[i], pristineBacking[i], pristineCap[i] = clonePacket(o.p), cloneBytes(o.buf), cloneBytes(o.backing), mon.DigestCap(o.p)
 	}
 	readOnly := []opKind{opMarshal, opMarshalSize, opDest, opString, opHeader}
 	prev := runtime.GOMAXPROCS(cfg.P)
@@ -425,6 +476,10 @@ func c18Concurrent(cs *core.Case, cfg c18Config, opsPerG int) {
 		if !bytes.Equal(o.buf, pristineB[i]) {
 			cs.Fail("concurrent/shared-buffer-modified", core.W{"type": o.kind.String(), "before_hex": mon.Hex(pristineB[i], 200), "after_hex": mon.Hex(o.buf, 200)})
 		}
+		if !bytes.Equal(o.backing, pristineBacking[i]) || mon.DigestCap(o.p) != pristineCap[i] {
+			cs.Fail("concurrent/caller-memory-modified", core.W{"type": o.kind.String(), "flavour": flavNames[o.flav], "backing_before_hex": mon.Hex(pristineBacking[i], 300), "backing_after_hex": mon.Hex(o.backing, 300)})
+		}
+		cs.Count("concurrent-shared-flavour/" + flavNames[o.flav])
 	}
 	cs.Distinct(core.Digest(setDigest, []byte(fmt.Sprint(cfg))))
 	// distinct (configuration, shared object, operation) triples that were actually executed concurrently
